@@ -69,6 +69,7 @@ MAX_EARLY_DATA = 0xFFFFFFFF
 MAX_REMOTE_CHALLENGES = 32
 MAX_LOCAL_CHALLENGES = 5
 MAX_NETWORK_PATHS = 8
+MAX_ACK_RANGES = 256
 SECRETS_LABELS = [
     [
         None,
@@ -1111,6 +1112,9 @@ class QuicConnection:
                     space.largest_received_packet = packet_number
                     space.largest_received_time = now
                 space.ack_queue.add(packet_number)
+                while len(space.ack_queue) > MAX_ACK_RANGES:
+                    # stop tracking the oldest packets, see RFC 9000 section 13.2.4
+                    space.ack_queue_start = space.ack_queue.shift().stop
                 if is_ack_eliciting and space.ack_at is None:
                     space.ack_at = now + self._ack_delay
 
